@@ -21,6 +21,10 @@ HDR = '''from pymtl3 import *
 class Pt:
   f: Bits4
   g: Bits4
+@bitstruct
+class Deep:
+  p: Pt
+  q: Bits8
 '''
 
 SKEL = '''
@@ -35,7 +39,7 @@ class Leaf_{k}(Component):
 {Leaf_DECL}{Leaf}
 class Mid_{k}(Component):
   def construct(s):
-    s.i = InPort(8); s.i2 = InPort(8); s.o = OutPort(8); s.w = Wire(8); s.t = Wire(8); s.st = Wire(Pt); s.si = InPort(Pt)
+    s.i = InPort(8); s.i2 = InPort(8); s.o = OutPort(8); s.w = Wire(8); s.t = Wire(8); s.st = Wire(Pt); s.si = InPort(Pt); s.dp = Wire(Deep)
     s.a = Leaf_{k}(); s.b = Leaf_{k}()
 {Mid_DECL}{Mid}
 class Top_{k}(Component):
@@ -191,6 +195,42 @@ case('two-drivers', 'slice and whole, two blocks', 'MultiWriterError', Mid=[W('b
 case('two-drivers', 'disjoint slices', None, Mid=[W('b1', 's.w[0:4]', 's.i[0:4]'), "connect(s.w[4:8], s.i[0:4])"])
 case('two-drivers', 'same block twice', None, Mid=["@update\ndef b1():\n  s.w @= s.i\n  s.w @= s.i + 1"])
 case('two-drivers', 'slice of a field and the field', 'MultiWriterError', Mid=[W('b1', 's.st.f', 's.i[0:4]'), W('b2', 's.st.f[0:2]', 's.i[0:2]')])
+
+# the rule must hold for EVERY statement of a block, not only the first one touching a signal
+for deco, good, bad, errcls in (('update', '@=', '<<=', 'UpdateBlockWriteError'), ('update_ff', '<<=', '@=', 'UpdateFFBlockWriteError')):
+  for wrong in (bad, '='):
+    case('operator', f"right then wrong ({wrong}) on one signal in @{deco}", errcls,
+         Mid=[f"@{deco}\ndef blk():\n  s.w {good} s.i\n  if s.i[0]:\n    s.w {wrong} s.i + 1", "@update\ndef other(): s.o @= s.i"])
+    case('operator', f"wrong ({wrong}) then right on one signal in @{deco}", errcls,
+         Mid=[f"@{deco}\ndef blk():\n  s.w {wrong} s.i\n  if s.i[0]:\n    s.w {good} s.i + 1", "@update\ndef other(): s.o @= s.i"])
+    case('operator', f"right on s.w, wrong ({wrong}) on s.t in @{deco}", errcls,
+         Mid=[f"@{deco}\ndef blk():\n  s.w {good} s.i\n  s.t {wrong} s.i + 1", "@update\ndef other(): s.o @= s.i"])
+  case('operator', f"two right assignments in @{deco}", None,
+       Mid=[f"@{deco}\ndef blk():\n  s.w {good} s.i\n  if s.i[0]:\n    s.w {good} s.i + 1", "@update\ndef other(): s.o @= s.i"])
+
+# writes made inside function helpers (s.func) count as writes of every block that reaches them
+F_DRIVE = "@s.func\ndef drive(v): s.w @= v"
+F_P0 = "@s.func\ndef path0(v): drive(v + 1)"
+F_P1 = "@s.func\ndef path1(v): drive(v + 2)"
+case('two-drivers', 'two blocks call one writing helper', 'MultiWriterError', Mid=[F_DRIVE, "@update\ndef b1(): drive(s.i)", "@update\ndef b2(): drive(s.i + 1)"])
+case('two-drivers', 'two blocks reach one writing helper through two helpers', 'MultiWriterError',
+     Mid=[F_DRIVE, F_P0, F_P1, "@update\ndef b1(): path0(s.i)", "@update\ndef b2(): path1(s.i)"])
+case('two-drivers', 'block writes directly, another through a helper', 'MultiWriterError', Mid=[F_DRIVE, "@update\ndef b1(): s.w @= s.i", "@update\ndef b2(): drive(s.i + 1)"])
+case('two-drivers', 'helper write and net', 'MultiWriterError', Mid=[F_DRIVE, "@update\ndef b1(): drive(s.i)", "connect(s.w, s.a.o)"])
+case('two-drivers', 'one block reaches the helper over two paths', None, Mid=[F_DRIVE, F_P0, F_P1, "@update\ndef b1():\n  path0(s.i)\n  path1(s.i)"])
+case('two-drivers', 'two helpers write different signals', None,
+     Mid=[F_DRIVE, "@s.func\ndef drive_t(v): s.t @= v", "@update\ndef b1(): drive(s.i)", "@update\ndef b2(): drive_t(s.i)"])
+
+# two drivers at nesting depth 2: the conflict is on the MIDDLE level (field of a field, slice of a field)
+case('two-drivers', 'depth 2: block writes s.dp.p.f, net drives s.dp.p', 'MultiWriterError', Mid=[W('b1', 's.dp.p.f', 's.i[0:4]'), "connect(s.dp.p, s.si)"])
+case('two-drivers', 'depth 2: block writes s.dp.q[0:4], net drives s.dp.q', 'MultiWriterError', Mid=[W('b1', 's.dp.q[0:4]', 's.i[0:4]'), "connect(s.dp.q, s.i)"])
+case('two-drivers', 'depth 2: block writes s.dp.p.f, another block writes s.dp.p', 'MultiWriterError', Mid=[W('b1', 's.dp.p.f', 's.i[0:4]'), W('b2', 's.dp.p', 's.si')])
+case('two-drivers', 'depth 2: block writes s.dp.p.f, net drives s.dp', 'MultiWriterError', Mid=[W('b1', 's.dp.p.f', 's.i[0:4]'), "connect(s.dp.p.g, s.i[4:8])", "connect(s.dp.q, s.i)", "@update\ndef b3(): s.dp @= Deep(s.si, s.i)"])
+case('two-drivers', 'depth 2: child output drives s.dp.q, block writes s.dp.q[4:8]', 'MultiWriterError', Mid=[W('b1', 's.dp.q[4:8]', 's.i[0:4]'), "connect(s.dp.q, s.a.o)"])
+case('two-drivers', 'depth 2: disjoint leaves, middle level only read', None,
+     Mid=[W('b1', 's.dp.p.f', 's.i[0:4]'), "connect(s.dp.p.g, s.i[4:8])", "connect(s.dp.q, s.i)", "connect(s.st, s.dp.p)", "connect(s.t, s.dp.q)"])
+case('two-drivers', 'depth 2: disjoint slices of a field, field read whole', None,
+     Mid=[W('b1', 's.dp.q[0:4]', 's.i[0:4]'), "connect(s.dp.q[4:8], s.i[4:8])", "connect(s.t, s.dp.q)", "connect(s.dp.p, s.si)"])
 
 # a larger legal design exercising every rule at once
 case('legal', 'everything legal at once', None,
